@@ -231,15 +231,195 @@ def gen_strings(ctx):
     return exh, rnd, edge
 
 
+class GlueRefusal(Exception):
+    pass
+
+
+def readers_glue(path):
+    """Module-level glue of fixed_format_file.py, walked on the AST (never imported), fail-closed:
+      fortran_read_float = partial(fortran_float, blank_value = None)      (and _int)
+      def read_function_dict(floatfn=..., intfn=..., strfn=..., spacefn=...): literal dict + for loop
+      fortran_read_function = read_function_dict(fortran_read_float, fortran_read_int)
+    -> Gallina: gen_fortran_read_float/int (the partial applications) and the table
+    gen_fortran_read_function : list (ascii * (pyval -> res pyval)) of the keys bound to them, plus
+    gen_fortran_read_other_keys (keys left to the non-numeric default readers)."""
+    import ast
+    tree = ast.parse(open(path).read())
+    def bad(what, node=None):
+        raise GlueRefusal('%s%s' % (what, ' at line %d' % node.lineno if node is not None and hasattr(node, 'lineno') else ''))
+    assigns, fdef, ven, imports_partial = {}, None, None, False
+    def nodoc(b): return [s for s in b if not (isinstance(s, ast.Expr) and isinstance(s.value, ast.Constant) and isinstance(s.value.value, str))]
+    for st in tree.body:
+        if isinstance(st, ast.ImportFrom) and st.module == 'functools' and any(a.name == 'partial' and a.asname is None for a in st.names):
+            imports_partial = True
+        if isinstance(st, ast.Assign):
+            for tg in st.targets:
+                names = [tg.id] if isinstance(tg, ast.Name) else [n.id for n in ast.walk(tg) if isinstance(n, ast.Name)]
+                for nm in names:
+                    if nm in ('fortran_read_float', 'fortran_read_int', 'fortran_read_function', 'partial',
+                              'fortran_float', 'fortran_int', 'read_function_dict', 'default_read_float', 'default_read_int',
+                              'default_read_function', 'value_error_none', 'float', 'int', 'ValueError'):
+                        if nm in assigns or len(st.targets) != 1 or not isinstance(tg, ast.Name): bad('re-assignment of ' + nm, st)
+                        assigns[nm] = st
+        elif isinstance(st, (ast.AugAssign, ast.AnnAssign, ast.Delete)):
+            bad('unexpected module-level statement', st)
+        elif isinstance(st, (ast.FunctionDef, ast.ClassDef)):
+            if st.name == 'read_function_dict':
+                if fdef is not None or not isinstance(st, ast.FunctionDef): bad('read_function_dict defined twice', st)
+                fdef = st
+            elif st.name == 'value_error_none':
+                if ven is not None or not isinstance(st, ast.FunctionDef): bad('value_error_none defined twice', st)
+                ven = st
+            elif st.name in ('fortran_read_float', 'fortran_read_int', 'fortran_read_function', 'partial',
+                             'default_read_float', 'default_read_int', 'default_read_function', 'float', 'int', 'ValueError'):
+                bad('def/class shadows ' + st.name, st)
+    for nm in ('partial', 'fortran_float', 'fortran_int', 'read_function_dict', 'value_error_none', 'float', 'int', 'ValueError'):
+        if nm in assigns: bad('module-level assignment to ' + nm, assigns[nm])
+    if not imports_partial: bad('from functools import partial not found')
+    # the partial applications
+    out = []
+    for nm, base in (('fortran_read_float', 'fortran_float'), ('fortran_read_int', 'fortran_int')):
+        st = assigns.get(nm)
+        if st is None: bad(nm + ' not assigned')
+        c = st.value
+        if not (isinstance(c, ast.Call) and isinstance(c.func, ast.Name) and c.func.id == 'partial'
+                and len(c.args) == 1 and isinstance(c.args[0], ast.Name) and c.args[0].id == base
+                and len(c.keywords) == 1 and c.keywords[0].arg == 'blank_value'
+                and isinstance(c.keywords[0].value, ast.Constant) and c.keywords[0].value.value is None):
+            bad(nm + ' is not partial(%s, blank_value = None)' % base, st)
+        out.append('(* fixed_format_file.py:%d  %s = partial(%s, blank_value = None) *)\n'
+                   'Definition gen_%s (v_s : pyval) : res pyval := gen_%s v_s VNone.\n' % (st.lineno, nm, base, nm, base))
+    # value_error_none(f): def fn(x): try: return f(x) / except ValueError: return None ; return fn
+    if ven is None: bad('value_error_none not found')
+    va = ven.args
+    if va.vararg or va.kwarg or va.kwonlyargs or va.posonlyargs or va.defaults or ven.decorator_list or len(va.args) != 1:
+        bad('value_error_none signature', ven)
+    fpar = va.args[0].arg
+    vb = nodoc(ven.body)
+    ok = len(vb) == 2 and isinstance(vb[0], ast.FunctionDef) and isinstance(vb[1], ast.Return) \
+        and isinstance(vb[1].value, ast.Name) and vb[1].value.id == vb[0].name and vb[0].name != fpar
+    if ok:
+        inner = vb[0]; ia = inner.args
+        ok = not (ia.vararg or ia.kwarg or ia.kwonlyargs or ia.posonlyargs or ia.defaults or inner.decorator_list) \
+            and len(ia.args) == 1 and ia.args[0].arg not in (fpar, inner.name)
+    if ok:
+        xpar = ia.args[0].arg; ib = nodoc(inner.body)
+        ok = len(ib) == 1 and isinstance(ib[0], ast.Try) and not ib[0].orelse and not ib[0].finalbody \
+            and len(ib[0].body) == 1 and isinstance(ib[0].body[0], ast.Return) and len(ib[0].handlers) == 1
+    if ok:
+        r = ib[0].body[0].value; h = ib[0].handlers[0]
+        ok = isinstance(r, ast.Call) and isinstance(r.func, ast.Name) and r.func.id == fpar and not r.keywords \
+            and len(r.args) == 1 and isinstance(r.args[0], ast.Name) and r.args[0].id == xpar \
+            and isinstance(h.type, ast.Name) and h.type.id == 'ValueError' and h.name is None \
+            and len(h.body) == 1 and isinstance(h.body[0], ast.Return) \
+            and (h.body[0].value is None or (isinstance(h.body[0].value, ast.Constant) and h.body[0].value.value is None))
+    if not ok: bad('value_error_none is not  def fn(x): try: return f(x) / except ValueError: return None;  return fn', ven)
+    out.append('(* fixed_format_file.py:%d  value_error_none *)\n'
+               'Definition gen_value_error_none (f : pyval -> res pyval) (v_x : pyval) : res pyval :=\n'
+               '  (try_ (f v_x) [(catch ValueError, Ok VNone)]).\n' % ven.lineno)
+    for nm, builtin in (('default_read_float', 'float'), ('default_read_int', 'int')):
+        st = assigns.get(nm)
+        if st is None: bad(nm + ' not assigned')
+        c = st.value
+        if not (st.lineno > ven.lineno and isinstance(c, ast.Call) and isinstance(c.func, ast.Name) and c.func.id == 'value_error_none'
+                and not c.keywords and len(c.args) == 1 and isinstance(c.args[0], ast.Name) and c.args[0].id == builtin):
+            bad(nm + ' is not value_error_none(%s)' % builtin, st)
+        out.append('(* fixed_format_file.py:%d  %s = value_error_none(%s) *)\n'
+                   'Definition gen_%s : pyval -> res pyval := gen_value_error_none b_%s.\n' % (st.lineno, nm, builtin, nm, builtin))
+    # read_function_dict: symbolic evaluation key -> parameter name
+    if fdef is None: bad('read_function_dict not found')
+    a = fdef.args
+    if a.vararg or a.kwarg or a.kwonlyargs or a.posonlyargs or fdef.decorator_list: bad('read_function_dict signature', fdef)
+    params = [x.arg for x in a.args]
+    body = nodoc(fdef.body)
+    if len(body) < 2 or not isinstance(body[-1], ast.Return): bad('read_function_dict body shape', fdef)
+    def key(n):
+        if isinstance(n, ast.Constant) and isinstance(n.value, str) and len(n.value) == 1 and n.value.isalpha() and n.value.isascii(): return n.value
+        bad('dictionary key is not a one-letter literal', n)
+    def par(n):
+        if isinstance(n, ast.Name) and n.id in params: return n.id
+        bad('dictionary value is not a parameter', n)
+    first = body[0]
+    if not (isinstance(first, ast.Assign) and len(first.targets) == 1 and isinstance(first.targets[0], ast.Name)
+            and isinstance(first.value, ast.Dict)): bad('read_function_dict: first statement is not var = {...}', first)
+    var = first.targets[0].id
+    if var in params: bad('result variable shadows a parameter', first)
+    table = {}
+    for k, v in zip(first.value.keys, first.value.values):
+        if k is None: bad('dict unpacking', first)
+        table[key(k)] = par(v)
+    for st in body[1:-1]:
+        if isinstance(st, ast.Assign) and len(st.targets) == 1 and isinstance(st.targets[0], ast.Subscript) \
+           and isinstance(st.targets[0].value, ast.Name) and st.targets[0].value.id == var:
+            table[key(st.targets[0].slice)] = par(st.value)
+        elif isinstance(st, ast.For) and isinstance(st.target, ast.Name) and not st.orelse and isinstance(st.iter, (ast.List, ast.Tuple)) \
+             and len(st.body) == 1 and isinstance(st.body[0], ast.Assign) and len(st.body[0].targets) == 1 \
+             and isinstance(st.body[0].targets[0], ast.Subscript) and isinstance(st.body[0].targets[0].value, ast.Name) \
+             and st.body[0].targets[0].value.id == var and isinstance(st.body[0].targets[0].slice, ast.Name) \
+             and st.body[0].targets[0].slice.id == st.target.id and st.target.id not in params and st.target.id != var:
+            p_ = par(st.body[0].value)
+            for e in st.iter.elts: table[key(e)] = p_
+        else: bad('read_function_dict: unsupported statement', st)
+    ret = body[-1].value
+    if not (isinstance(ret, ast.Name) and ret.id == var): bad('read_function_dict does not return its dictionary', body[-1])
+    # parameter defaults (plain names only)
+    if len(a.defaults) > len(params) or not all(isinstance(d_, ast.Name) for d_ in a.defaults): bad('read_function_dict defaults', fdef)
+    defaults = dict(zip(params[len(params) - len(a.defaults):], [d_.id for d_ in a.defaults]))
+    def dictionary(name, needs, numeric):
+        # <name> = read_function_dict(<names>) -> rows of the keys bound to the readers in [numeric], other keys
+        st = assigns.get(name)
+        if st is None: bad(name + ' not assigned')
+        if not (st.lineno > fdef.lineno and all(st.lineno > assigns[n_].lineno for n_ in needs)):
+            bad(name + ' assigned before its ingredients', st)
+        c = st.value
+        if not (isinstance(c, ast.Call) and isinstance(c.func, ast.Name) and c.func.id == 'read_function_dict'
+                and all(isinstance(x, ast.Name) for x in c.args) and all(isinstance(k.value, ast.Name) and k.arg for k in c.keywords)):
+            bad(name + ' is not read_function_dict(<names>)', st)
+        bound = {}
+        if len(c.args) > len(params): bad('too many arguments', st)
+        for p_, x in zip(params, c.args): bound[p_] = x.id
+        for k in c.keywords:
+            if k.arg not in params or k.arg in bound: bad('bad keyword argument', st)
+            bound[k.arg] = k.value.id
+        for p_ in params:
+            if p_ not in bound:
+                if p_ not in defaults: bad('missing argument ' + p_, st)
+                bound[p_] = defaults[p_]
+        rows, others = [], []
+        for k in sorted(table):
+            fn = bound.get(table[k])
+            if fn in numeric: rows.append('("%s"%%char, gen_%s)' % (k, fn))
+            else: others.append('"%s"%%char' % k)
+        stem = 'gen_' + name.replace('_function', '')
+        out.append('(* fixed_format_file.py:%d  %s = read_function_dict(%s), dictionary built at line %d *)\n'
+                   'Definition gen_%s : list (ascii * (pyval -> res pyval)) :=\n  [%s].\n'
+                   'Definition %s_other_keys : list ascii := [%s].\n'
+                   % (st.lineno, name, ', '.join([x.id for x in c.args] + ['%s=%s' % (k.arg, k.value.id) for k in c.keywords]),
+                      fdef.lineno, name, '; '.join(rows), stem, '; '.join(others)))
+    # the defaults are evaluated at the def: the default readers must exist by then
+    if not all(assigns[n_].lineno < fdef.lineno for n_ in ('default_read_float', 'default_read_int')):
+        bad('read_function_dict defined before the default readers', fdef)
+    dictionary('fortran_read_function', ('fortran_read_float', 'fortran_read_int'), ('fortran_read_float', 'fortran_read_int'))
+    dictionary('default_read_function', ('default_read_float', 'default_read_int'), ('default_read_float', 'default_read_int'))
+    return '\n' + '\n'.join(out)
+
+
 def translate(ctx):
+    path = os.path.join(ctx.repo, 'fixed_format_file.py')
     try:
-        t = pyfun.Translator(os.path.join(ctx.repo, 'fixed_format_file.py'))
+        t = pyfun.Translator(path)
         t.translate('fortran_float'); t.translate('fortran_int')
-        ctx.gen('GenFortran', pyfun.HEADER + t.text())
-        return True
+        text = pyfun.HEADER + t.text()
     except pyfun.Refusal as e:
         ctx.refusal('pyfun(fortran_float, fortran_int)', e)
         return False
+    try:
+        text += readers_glue(path)
+    except GlueRefusal as e:
+        ctx.refusal('glue(fortran_read_float, fortran_read_int, read_function_dict, fortran_read_function)', e)
+        return False
+    ctx.gen('GenFortran', text)
+    return True
 
 
 def correspond(ctx, exe, strings):
